@@ -1,5 +1,6 @@
 """C17 — readers: every reader kind over scripted upstreams, drained with random destination sizes."""
 PID = "C17"
+CASE_LIMIT = {"C17": 15}   # seconds: these cases are function calls, not sessions
 RULE = ("for each reader kind (map, filter, flatmap, head, fold, writer, scan, const, readerfunc, multi, exec multi, frame, "
         "taskbuf, readfull, scanner, closing, cogroup): random inputs (0..40 rows, keys 0..9), random upstream scripts "
         "(chunk limits incl. zero-row reads, EOF with or after the last rows, injected read errors) and random destination-"
